@@ -45,6 +45,8 @@ m = {
          "kind_free_text": "cargo crate calling the real retrofire code in-process on generated cases, one op per line, panics caught"},
         {"name": "check-driver", "path": "check", "serves_properties": [c["property_id"] for c in checks],
          "kind_free_text": "python3: builds, audits axioms, runs the correspondence, applies known_findings.json, searches for failing inputs, writes evidence"},
+        {"name": "u01-library-utilities (extra engine, serves no listed property)", "path": "lean/Retro/Props/U01.lean", "serves_properties": [],
+         "kind_free_text": "growth of the model beyond the twenty properties: vec/point utilities, integer Affine/Linear, approx_eq, Mesh/Builder incl. with_vertex_normals, Stats arithmetic and formatting; same machinery (./check U01, props/U01.json, harness/src/bin/u01.rs, lean/Retro/Drv/U01.lean, design/U01.md); not a property check, never raises an alarm for a property"},
     ],
     "checks": checks,
     "not_applicable": na,
